@@ -62,6 +62,9 @@ var vhTotalsOps = [][]string{
 	{"EXPIRE", "fleet", "truck1", "9"}, {"PERSIST", "fleet", "truck4"},
 	{"JSET", "fleet", "truck2", "a", "1"}, {"JSET", "fleet", "truck1", "properties.n", "1"},
 	{"RENAME", "user", "fleet"}, {"RENAME", "fleet", "cars"}, {"DROP", "fleet"},
+	// field, deadline and document changes on the object written at the symbolic id (any kind)
+	{"FSET", "fleet", "?", "load", "12.5", "name", "a longer string value"}, {"FSET", "fleet", "?", "w", "0"},
+	{"EXPIRE", "fleet", "?", "9"}, {"PERSIST", "fleet", "?"}, {"DEL", "fleet", "?"},
 }
 
 func vhStatOf(arr []string, name string) int {
@@ -77,7 +80,7 @@ func vhStatOf(arr []string, name string) int {
 	return -1
 }
 
-//verif:cfg quick.b_history=1_command thorough.b_history=2_commands b_first=overwrite_or_insert_at_a_symbolic_id(string|point|rectangle|nothing) b_commands=19(kind_changes,deletes,field_and_deadline_changes,JSET,RENAME,DROP) b_dataset=points,string,deadline,fields,JSON_document,empty_geometry ignorego=1
+//verif:cfg quick.b_history=1_command thorough.b_history=2_commands b_first=overwrite_or_insert_at_a_symbolic_id(string|point|rectangle|nothing) b_commands=24(kind_changes,deletes,field_and_deadline_changes,JSET,RENAME,DROP) b_dataset=points,string,deadline,fields,JSON_document,empty_geometry ignorego=1
 func VH_C19_server_totals() {
 	s, _ := vhGateServer()
 	n := 1
@@ -95,7 +98,12 @@ func VH_C19_server_totals() {
 		vhDo(s, "SET", "fleet", id, "FIELD", "w", "3", "BOUNDS", "-5", "-6", "7", "8")
 	}
 	for i := 0; i < n; i++ {
-		op := vhTotalsOps[vchoose(len(vhTotalsOps))]
+		op := append([]string(nil), vhTotalsOps[vchoose(len(vhTotalsOps))]...)
+		for k := range op {
+			if op[k] == "?" {
+				op[k] = id
+			}
+		}
 		vhDo(s, op...)
 		vobs("op", strings.Join(op, " "))
 	}
